@@ -493,6 +493,9 @@ def misc_cases(rng: Rng, tier):
         xs = rng.grid(n, [Fr(j, 2) for j in range(0, 9)])
         kk = rng.choice([Fr(0), Fr(1, 2), Fr(2), Fr(7, 2), Fr(-1)])
         yield build_fn_case({"form": "frequency", "tag": "frequency", "fn": "frequency_at_k", "input": tj(ft(xs)), "k": float(kk)})
+        # counts held in an INTEGER tensor against a fractional threshold (elements equal to floor(k) are below k)
+        ci = [rng.randrange(5) for _ in range(n)]
+        yield build_fn_case({"form": "frequency", "tag": "frequency-int", "fn": "frequency_at_k", "input": tj(it(ci)), "k": float(rng.choice([Fr(1, 2), Fr(5, 2), Fr(7, 2), Fr(2)]))})
     # shape / parameter errors
     x2 = it([1, 0, 1, 1], shape=(2, 2))
     yield case_ctr(x2, None, 1, "ctr-shape", "err")
